@@ -8,7 +8,7 @@
    second group gives the fuel bound. *)
 From PV Require Import Base.Prelude Spec.LuaLex Instances.HoldsC01 Generated.T_files_build Model.ReqEmbed
   Model.ReqEmbedInst Proofs.ReqEmbedProofs Proofs.ReqEmbedInstProofs Proofs.SpecLexChunk Proofs.ReqEmbedSpecTokens
-  Instances.HoldsC06 Proofs.LexerChunk Proofs.ReqEmbedEchoGood.
+  Instances.HoldsC06 Proofs.LexerChunk Proofs.ReqEmbedEchoGood Proofs.LexerChunkNl Proofs.ReqEmbedSepNl.
 
 Section Abstract.
 Variable P : Type.
@@ -330,6 +330,54 @@ Theorem C14_pkg_conditions_unstripped : forall c q,
   (echo_lines q = [] \/ ends_lf (last (echo_lines q) [])).
 Proof. exact unstripped_pkg_ok. Qed.
 
+(* RESIDUAL (1) REMOVED (Proofs/LexerChunkNl.v, Proofs/ReqEmbedSepNl.v).  The token-level clause WITHOUT the
+   condition that the last echoed line of an entry ends in LF: [pkg_shape_nl e] only says that the header line and
+   the echoed lines are bytes and that the echoed lines - all but the last - end in LF.  When the last line has no
+   newline build.py inserts a separate one-byte newline line before `end`; the lexer model reads that line list
+   exactly as it reads the concatenated text (chunk_ok_sep_dialect: after a text of the dialect, at whose end the
+   lexer is back in its Normal state and which cannot end in a carriage return, a line feed may come as a chunk of
+   its own), so the tokens are the same: header + echoed package + `end` per entry. *)
+Theorem C14_tokens_spec_any_newline :
+  forall cwd fs lua_path fuel main_path main_content out,
+  build_code_now cwd fs lua_path fuel main_path main_content = Ok out ->
+  exists r pk, build_lua_now cwd fs lua_path fuel main_path main_content = Ok (r, pk) /\
+    let toks := toks (Z * list Z * Z * Z * Z) sig_views in
+    let lexes := lexes (Z * list Z * Z * Z * Z) sig_views in
+    (lexes main_content -> Forall byte main_content ->
+     Forall (fun e => lexes (header_line_now (fst e)) /\ lexes (concat (echo_lines (snd e))) /\ pkg_shape_nl e) pk ->
+     sig_views out = Some match pk with
+                          | [] => toks main_content
+                          | _ => concat (map toks require_lua_preamble_package)
+                                 ++ concat (map (fun e => toks (header_line_now (fst e))
+                                                          ++ toks (concat (echo_lines (snd e))) ++ toks end_line_now) pk)
+                                 ++ concat (map toks require_lua_preamble_require) ++ toks main_content
+                          end).
+Proof. exact build_code_tokens_nl. Qed.
+
+(* ... and the per-entry conditions are theorems for a package embedded with its game loop from ANY byte file of
+   the dialect, with or without a final newline; its echoed code has exactly the file's tokens *)
+Theorem C14_pkg_conditions_unstripped_any_newline : forall c q,
+  Forall byte c -> lexes (Z * list Z * Z * Z * Z) sig_views c ->
+  from_lines (file_lines c) = Ok q ->
+  lexes (Z * list Z * Z * Z * Z) sig_views (concat (echo_lines q)) /\
+  toks (Z * list Z * Z * Z * Z) sig_views (concat (echo_lines q)) = toks (Z * list Z * Z * Z * Z) sig_views c /\
+  good_lines (echo_lines q).
+Proof. exact unstripped_pkg_ok_nl. Qed.
+
+(* the lexer-stack fact behind it, for the line list handed to the final parse: lexing it line by line reaches the
+   same lexer state (tokens, positions) as lexing the concatenated text *)
+Theorem C14_prepended_lines_chunking : forall m pk,
+  Forall (fun e => lexes (Z * list Z * Z * Z * Z) sig_views (header_line_now (fst e)) /\
+                   lexes (Z * list Z * Z * Z * Z) sig_views (concat (echo_lines (snd e))) /\
+                   Forall byte (header_line_now (fst e)) /\ good_lines (echo_lines (snd e))) pk ->
+  good_lines (echo_lines m) ->
+  let ls := prepend_lines lua echo_lines require_lua_preamble_package require_lua_preamble_require
+                          header_line_now end_line_now nl_line_now m pk in
+  Forall byte (concat ls) /\ Model.Lexer.model_lex ls = Model.Lexer.model_lex [concat ls].
+Proof.
+  exact (fun m pk Hpk Hm => match prepend_good_nl m pk Hpk Hm with conj HB Hc => conj HB (chunk_ok_model_lex _ Hc) end).
+Qed.
+
 (* the stripping step of the concrete model, before the text is lexed again: whatever statements of
    the tree are taken for game loop functions and wherever their token ranges lie, the significant
    tokens that remain are a subsequence of the file's significant tokens - stripping removes, it never
@@ -360,6 +408,9 @@ Print Assumptions C14_tokens_spec.
 Print Assumptions C14_pkg_conditions_unstripped.
 Print Assumptions C14_echo_predicate_suffices.
 Print Assumptions C14_echo_views.
+Print Assumptions C14_tokens_spec_any_newline.
+Print Assumptions C14_pkg_conditions_unstripped_any_newline.
+Print Assumptions C14_prepended_lines_chunking.
 
 (* non-vacuity: a main program and two packages that require each other (a cycle), one game loop
    function each, one package without a final newline; the build succeeds, embeds each package once
@@ -409,3 +460,27 @@ Proof. vm_compute. reflexivity. Qed.
 Example C14_example_bad_arguments :
   run_build "/sb"%bs ex_fs "?;?.lua"%bs "main.lua"%bs "x=require(""a"",{use_game_loop=true},3)"%bs = Err BuildError.
 Proof. vm_compute. reflexivity. Qed.
+
+(* non-vacuity of the any-newline theorems: a package file without a final newline; its echoed lines end with a
+   line that has no newline (so C14_pkg_conditions_unstripped / C14_tokens_spec do not apply), the block built
+   for it contains the separate newline line, is NOT a list of LF-terminated lines, and yet lexes - line by
+   line - to the same tokens as its concatenation *)
+Definition ex_nonl : bytes := "x=1
+return x"%bs.
+Example C14_example_no_final_newline :
+  match from_lines (file_lines ex_nonl) with
+  | Ok q =>
+    let blk := block lua echo_lines header_line_now end_line_now nl_line_now ("a"%bs : bytes, q) in
+    echo_lines q = ["x=1
+"%bs : bytes; "return x"%bs : bytes] /\
+    blk = ["package._c[""a""]=function()
+"%bs : bytes; "x=1
+"%bs : bytes; "return x"%bs : bytes; [10]; "end
+"%bs : bytes] /\
+    forallb ends_with_nl (removelast blk) = false /\
+    Model.Lexer.model_lex blk = Model.Lexer.model_lex [concat blk] /\
+    (match Model.Lexer.model_lex blk with Ok ts => Nat.ltb 10 (length ts) | Err _ => false end) = true /\
+    sig_views (concat (echo_lines q)) = sig_views ex_nonl /\ sig_views ex_nonl <> None
+  | Err _ => False
+  end.
+Proof. vm_compute. repeat split; try reflexivity. discriminate. Qed.
